@@ -89,6 +89,8 @@ FAMILIES = {
     "C11": ["op"],
     "C12": ["op"],
     "C13": ["op"],
+    "C16": ["op", "timedextra"],
+    "C17": ["op", "timedextra"],
     "C28": ["vts"],
     "C29": ["vts"],
     "C25": ["monitor"],
@@ -119,6 +121,8 @@ def units_for(prop, tier):
         us.append({"runner": "schedobs", "prop": prop, "id": "reactivex/observer/scheduledobserver.py::ScheduledObserver"})
     if "replay" in fams:
         us.append({"runner": "replay", "prop": prop, "id": "reactivex/subject/replaysubject.py::ReplaySubject"})
+    if "timedextra" in fams:
+        us.append({"runner": "timedextra", "prop": prop, "id": f"timed-operators-not-under-contract/{prop}"})
     if "mcast" in fams:
         us.append({"runner": "mcast", "prop": prop, "id": "reactivex/observable/connectableobservable.py::multicasting"})
     if "seqcomp" in fams:
